@@ -145,7 +145,8 @@ def modelStep (s : St) (ts : List String) : St × Option String :=
       if addr = "" ∨ (oc ≠ "ok" ∧ oc ≠ "err") ∨ !t.loaded then (s, some "bad-op") else
       let (r1, out) := r.check s.now (sortNodes r.nodes)
       let now := s.now + rt
-      let r2 := r1.completed now addr rt (oc == "err")
+      -- addresses are percent-encoded tokens (injective), `%E` is the empty address: `TraceCallee` ignores it
+      let r2 := r1.completed now (if addr = "%E" then "" else addr) rt (oc == "err")
       (setRes { s with now := now } name r2 t, some (showCheck r.nodes.length out r1.nodes ++ s!" end={showStates r2.nodes}"))
     | _, _ => (s, some "bad-op")
   | ["probe", name] => match getRes s name with
@@ -290,8 +291,11 @@ def oracleStep (s : OSt) (ts : List String) (line : String) : OSt × Option Stri
       if !r.loaded then (s, some "bad-op") else
       let (v, rej) := judgeCheck r res
       let st := if rej.isEmpty then r.status else stSchedule r.status rej
-      let st := if oc == "ok" then stRecover st addr else st
-      (oSet s name { r with status := st, known := addrsOf res "end" r.known }, some v)
+      let st := if oc == "ok" ∧ addr ≠ "%E" then stRecover st addr else st
+      let known := addrsOf res "end" r.known
+      -- a callee that completed a request is a known node afterwards, under the address it was traced with
+      let v := if v.startsWith "bad" ∨ addr = "%E" ∨ known.contains addr then v else "bad completed-node-not-known"
+      (oSet s name { r with status := st, known := known }, some v)
     | none => (s, some "bad-op")
   | ["probe", name] => match oGet s name with
     | some r =>
